@@ -655,3 +655,211 @@ def replay(ctx, path):
     print(json.dumps({"call": brief(case), "spec": case["exp"], "model": case["impl"], "deviations": case["why"],
                       "torch": r["torch"], "onnx": r["onnx"], "reference": r.get("ref"), "verdict": kind, "detail": detail}, indent=1, default=str))
     return 1 if kind in ("wrong", "refused") else 0
+
+
+# ------------------------------------------------------------------ end to end: modules through torch.onnx.export(dynamo=True)
+def translation_table():
+    """every ATen/prims overload of the installed PyTorch -> the function THIS repository registers for it
+    (torch 2.14 ships its own copy of torchlib and would otherwise dispatch to that)"""
+    if "table" not in _STATE:
+        import torch
+
+        table = {}
+        for q, fn in _registry().items():
+            if not q.startswith(("aten::", "prims::")):
+                continue
+            try:
+                tgt = _torch_target(q)
+            except AttributeError:
+                continue
+            if isinstance(tgt, torch._ops.OpOverload):
+                table[tgt] = fn
+        _STATE["table"] = table
+    return _STATE["table"]
+
+
+def _mod_value(x, env):
+    if x["k"] == "ref":
+        return env[x["v"] - 1]
+    if x["k"] == "tlist":
+        return [_mod_value(y, env) for y in x["items"]]
+    return _torch_arg(x)
+
+
+def build_module(mod):
+    import torch
+
+    steps = []
+    for st in mod["prog"]:
+        pos, kw = _split_args(st["args"])
+        steps.append((_torch_target(st["op"]), pos, kw))
+
+    class M(torch.nn.Module):
+        def forward(self, x0, x1):
+            env = [x0, x1]
+            for tgt, pos, kw in steps:
+                env.append(tgt(*[_mod_value(x, env) for x in pos], **{k: _mod_value(v, env) for k, v in kw.items()}))
+            return tuple(env[2:])
+
+    def tens(t):
+        return torch.from_numpy(_np({"s": t["dt"], "shape": t["shape"], "data": t["data"]}).copy())
+
+    return M().eval(), (tens(mod["env"][0]), tens(mod["env"][1]))
+
+
+def module_text(mod):
+    lines = [f"x0: {mod['env'][0]['dt']}{list(mod['env'][0]['shape'])}, x1: {mod['env'][1]['dt']}{list(mod['env'][1]['shape'])}"]
+    for k, st in enumerate(mod["prog"]):
+        parts = []
+        for x in st["args"]:
+            nm = (x["nm"] + "=") if x["nm"] else ""
+            if x["k"] == "ref":
+                parts.append(f"{nm}x{x['v'] - 1}")
+            elif x["k"] == "tl":
+                parts.append("[")
+            elif x["k"] in ("i", "f", "b"):
+                parts.append(f"{nm}{ {'i': int, 'f': float, 'b': bool}[x['k']](x['v'])!r}")
+            elif x["k"] == "il":
+                parts.append(f"{nm}{list(x['data'])}")
+            elif x["k"] == "n":
+                parts.append(f"{nm}None")
+            else:
+                parts.append(f"{nm}{x['s']}")
+        lines.append(f"x{k + 2} = {st['op']}({', '.join(parts)})")
+    return "; ".join(lines)
+
+
+def run_module(mod):
+    import logging
+
+    import numpy as np
+    import torch
+
+    torch.set_num_threads(1)
+    logging.disable(logging.CRITICAL)
+    out = {}
+    try:
+        m, inputs = build_module(mod)
+        with torch.no_grad():
+            eager = m(*inputs)
+        out["torch"] = {"st": "many", "ts": [_enc_np(o.detach().cpu().numpy()) for o in eager]}
+    except Exception as e:  # noqa: BLE001
+        out["torch"] = {"err": "torch", "msg": f"{type(e).__name__}: {str(e)[:300]}"}
+        return out
+    try:
+        with warnings.catch_warnings():
+            warnings.simplefilter("ignore")
+            import contextlib
+            import io
+
+            with contextlib.redirect_stdout(io.StringIO()), contextlib.redirect_stderr(io.StringIO()):
+                prog = torch.onnx.export(m, inputs, dynamo=True, custom_translation_table=translation_table(),
+                                         opset_version=OPSET, verbose=False)
+        proto = prog.model_proto
+    except Exception as e:  # noqa: BLE001
+        chain = []
+        ex = e
+        while ex is not None and len(chain) < 6:
+            chain.append(f"{type(ex).__name__}: {str(ex)[:160]}")
+            ex = ex.__cause__ or ex.__context__
+        names = " ".join(chain)
+        kind = "capture" if "TorchExportError" in names and "ConversionError" not in names and "GraphConstructionError" not in names and "DispatchError" not in names else "export"
+        out["onnx"] = {"err": kind, "msg": " <- ".join(chain)[:700]}
+        return out
+    feeds = {}
+    for gi, t in zip(proto.graph.input, inputs):
+        feeds[gi.name] = t.numpy()
+    try:
+        sess = core.ort_session(proto)
+        res = sess.run(None, feeds)
+        out["onnx"] = {"st": "many", "ts": [_enc_np(o) for o in res]}
+    except Exception as e:  # noqa: BLE001
+        msg = str(e)
+        out["onnx"] = {"err": "unsupported" if any(u in msg for u in _UNSUPPORTED) else "ort", "msg": f"{type(e).__name__}: {msg[:300]}"}
+    if "err" in out["onnx"] or diff_results(out["torch"], out["onnx"]):
+        out["ref"] = run_reference((proto, feeds, "many"))
+    return out
+
+
+def tlc_modules(ctx, reg_path, n):
+    env = {"C08_REG": reg_path}
+    design = "AtenModule_design_quick.cfg" if ctx.quick else "AtenModule_design.cfg"
+    res = core.run_tlc("AtenModule", design, env=env, timeout=2400, workers=max(2, core.NCPU // 2), heap="4g")
+    ctx.tlc(res, design)
+    if not res.ok:
+        raise core.MachineryError(f"TLC reports {res.violated} on {design}:\n" + "\n".join(l for l in res.out.splitlines() if not l.startswith('"C08'))[-2000:])
+    vac = core.run_tlc("AtenModule", "AtenModule_vacuity.cfg", env=env, timeout=600, workers=4, heap="2g")
+    ctx.tlc(vac, "AtenModule_vacuity.cfg")
+    if vac.ok:
+        raise core.MachineryError("vacuity: no module step with operands of different element types is reachable in AtenModule.tla")
+    w = 4
+    sim = core.run_tlc("AtenModule", "AtenModule_sim.cfg", env=env, simulate=f"num={max(1, (n + w - 1) // w)}", depth=80,
+                       seed=ctx.seed + 1, workers=w, timeout=2400, heap="4g")
+    ctx.tlc(sim, "AtenModule_sim.cfg (simulate)")
+    if not sim.ok:
+        raise core.MachineryError(f"TLC reports {sim.violated} in simulation of AtenModule:\n" + "\n".join(l for l in sim.out.splitlines() if not l.startswith('"C08'))[-2000:])
+    mods, seen = [], set()
+    for line in sim.out.splitlines():
+        if line.startswith('"C08MOD '):
+            txt = json.loads(line)[len("C08MOD "):]
+            if txt not in seen:
+                seen.add(txt)
+                mods.append(json.loads(txt))
+    if not mods:
+        raise core.MachineryError("vacuity: the simulation of AtenModule.tla produced no finished module")
+    mods.sort(key=lambda m: json.dumps(m, sort_keys=True))
+    return mods[:n]
+
+
+def run_modules(ctx, reg_path):
+    n = 16 if ctx.quick else 160
+    mods = tlc_modules(ctx, reg_path, n)
+    results = core.pmap_safe(run_module, mods, timeout=300)
+    stats: dict = {}
+    mixed = 0
+    for mod, r in zip(mods, results):
+        ctx.add("evaluations")
+        ctx.add("modules")
+        text = module_text(mod)
+        if not isinstance(r, dict):
+            stats["hang"] = stats.get("hang", 0) + 1
+            print(f"SPEC-MISMATCH C08 module [{text}]: the export worker did not finish: {r!r}", flush=True)
+            continue
+        t = r["torch"]
+        spec = {"st": "many", "vals": True, "ts": [{"dt": e["dt"], "shape": list(e["shape"]), "data": list(e["data"])} for e in mod["env"][2:]]}
+        if "err" in t:
+            stats["spec_mismatch"] = stats.get("spec_mismatch", 0) + 1
+            print(f"SPEC-MISMATCH C08 module [{text}]: PyTorch refuses a module of the spec: {t['msg']}", flush=True)
+            continue
+        d = diff_spec(spec, t)
+        if d:
+            stats["spec_mismatch"] = stats.get("spec_mismatch", 0) + 1
+            print(f"SPEC-MISMATCH C08 module [{text}]: TLC's values differ from torch eager: {d}", flush=True)
+            continue
+        o = r["onnx"]
+        ref = r.get("ref")
+        ref_ok = ref is not None and "err" not in ref
+        case = {"module": text, "env": mod["env"], "prog": mod["prog"], "torch": t, "onnx": o, "ref": ref}
+        if "err" in o:
+            if o["err"] in ("capture", "unsupported"):
+                stats["discarded"] = stats.get("discarded", 0) + 1
+                continue
+            if o["err"] == "ort" and "Non-zero status code returned while running" in o["msg"] and ref_ok and not diff_results(t, ref):
+                stats["discarded"] = stats.get("discarded", 0) + 1
+                continue
+            stats["refused"] = stats.get("refused", 0) + 1
+            ctx.report(case, f"module [{text}]: torch.onnx.export(dynamo=True) with this repository's functions fails or yields a model onnxruntime rejects: {o['msg'][:300]}")
+            continue
+        d = diff_results(t, o)
+        if d and ("shape" in d or "values" in d) and ref_ok and not diff_results(t, ref):
+            stats["discarded"] = stats.get("discarded", 0) + 1
+            continue
+        if d:
+            stats["wrong"] = stats.get("wrong", 0) + 1
+            ctx.report(case, f"module [{text}]: the exported model differs from the module - {d}")
+        else:
+            stats["ok"] = stats.get("ok", 0) + 1
+    ctx.set("module_outcomes", stats)
+    if mods:
+        ctx.sample({"module": module_text(mods[0])})
+    return stats
